@@ -1,8 +1,8 @@
 SPECIFICATION MCSpec
-CONSTANT Variant = "two"
+CONSTANT Variant = "raced"
 CONSTANT StrictEvents = TRUE
 CONSTANT FixF5 = TRUE
-CONSTANT FixF26 = TRUE
+CONSTANT FixF26 = FALSE
 CONSTANT FixF27 = TRUE
 CONSTANT FixF28 = TRUE
 CONSTANT FixF23 = TRUE
